@@ -34,6 +34,10 @@ CLAIMED = {
          'After transport loss nothing in the model state mentions the transport (theorem, any prefix history, any handler raising); the '
          'real servers are searched for references after every loss and their object graph is walked after 1/10/100 come-and-go clients.',
          TB + 'memory = reachable object graph (allocator not modelled; labelled partial in DESIGN).', '§5 C11'),
+ 'C12': ('proof', 'Lean 4 unwinding/confinement theorems over the server-core model, parametric in the decoder; correspondence on hostile streams; two-run noninterference oracle on the real servers',
+         'step_confined / undecodable_inert / bounded_reserve as theorems for every decoder result; hostile frame streams from one '
+         'transport interleaved with bystanders run on both families and the model, and each scenario re-run without the offender.',
+         TB + 'handlers passive; allocation probed with tracemalloc; msgpack serializer not yet covered.', '§5 C12'),
  'C13': ('proof', 'Lean 4 theorems over arbitrary registries + reserved lists regenerated from source; exhaustive correspondence with the four real classes',
          'The precedence table is a theorem for every registry; reserved-event lists are regenerated from the source on every run; all '
          '2^6 x variants configurations are executed on Server/AsyncServer/Client/AsyncClient.',
